@@ -6,6 +6,7 @@
   The independent decoder of the harness side (`Spec.unser`) is run on the real bytes by the check.
 -/
 import IppModel.Lemmas.Encode
+import IppModel.Lemmas.Extra
 namespace Ipp.Props.C03
 open Ipp Ipp.Gen Ipp.Spec
 
@@ -38,6 +39,20 @@ theorem single_end_tag (w : WMsg) :
 theorem additional_values_shape (t : UInt8) (b : Bytes) (vs : List WVal) :
     toksVs (.plain t b :: vs) = ⟨t, [], b⟩ :: toksVs vs := by
   simp [toksVs, toksV]
+
+/-- The independent decoder used on the real bytes (`Spec.unser`, plain recursive descent over the RFC 8010
+    grammar) inverts the serialiser on every well-formed tree: the grammar is unambiguous and the decoder
+    finds exactly the tree and the trailing data. -/
+theorem independent_decoder_correct (w : WMsg) (p : Bytes) (h : wfWire w = true) : unser (ser w ++ p) = some (w, p) :=
+  unser_ser w p h
+
+/-- hence, for every message of the domain and every listing, the independent decoder reads the encoder's
+    bytes as the reference wire tree -/
+theorem independent_decoder_reads_encoder (h : Header) (gs L : List Group) (hwf : wfMsg gs = true) (hL : ListingOf gs L) :
+    unser (encodeMsg h L) = some (toWireMsg h L, []) := by
+  have := unser_ser (toWireMsg h L) [] (toWireMsg_wf h gs L hwf hL)
+  rw [encodeMsg_eq_ser h gs L hwf hL]
+  simpa using this
 
 /-- non-vacuity: a message with a mixed set, nested collections with a multi-valued member, a repeated
     and an empty group is in the domain -/
